@@ -59,6 +59,7 @@ typedef struct {
     pend_t mb[MAXMB]; int nmb;
     size_t batch_size; int batch_tmo;      /* batch_tmo: index into TMO[], 0 = none */
     int batch_fired;                        /* batch timer expired and not yet consumed */
+    int ever_batched;                       /* a batch size/timeout was configured at some point since the module last (re)started */
     int stash[MAXEV]; int nst;              /* indices into EV[] */
     int hs[8]; int nhs;                     /* handler stack (ids 1..3) */
     srcrec_t src[MAXSRC];
